@@ -101,12 +101,16 @@ Record arec := {
   ar_grant : option nat;     (* the IdP grant it descends from *)
   ar_at : Z }.
 
+(* a MAC computed by the proxy under ITS client secret: the signed text is uri ++ decimal ts *)
+Record mrec := { mr_val : str; mr_uri : str; mr_ts : Z }.
+
 (* an auth code minted by the authenticator *)
 Record crec := {
   cr_val : str; cr_s : B.session;
   cr_uri : str;              (* ghost: the redirect_uri it was handed to *)
   cr_slug : str;
   cr_from : option str;      (* ghost: value of the authenticator cookie it was minted for *)
+  cr_sig : option mrec;      (* ghost: the proxy's MAC the /sign_in request presented *)
   cr_grant : option nat;
   cr_at : Z }.
 
@@ -117,20 +121,19 @@ Record vrec := {
   vr_an : A.answers;         (* ghost: the IdP's answers during that exchange *)
   vr_at : Z }.
 
-(* a MAC computed by the proxy under ITS client secret: the signed text is uri ++ decimal ts *)
-Record mrec := { mr_val : str; mr_uri : str; mr_ts : Z }.
 
 (* the identity provider's own state *)
 Record idp := {
   i_down : bool;                          (* outage: every endpoint answers 503 *)
-  i_rev : list nat;                       (* revoked grants *)
+  i_rev : list (nat * Z);                 (* revoked grants, with the time of the revocation *)
   i_groups : list (str * list str) }.     (* directory: e-mail -> groups *)
 
 Record state := {
   st_now : Z;
   st_p : list prec; st_a : list arec; st_c : list crec; st_v : list vrec; st_m : list mrec;
   st_idp : idp;
-  st_out : list Z }.   (* ghost: times of proxy requests during which the authenticator or the IdP was unavailable *)
+  st_out : list Z }.   (* ghost: times of proxy requests during which the authenticator or the IdP was unavailable,
+                          or the back channel answered 429 / 503 *)
 
 Definition idp0 : idp := {| i_down := false; i_rev := []; i_groups := [] |}.
 Definition init (t0 : Z) : state :=
@@ -195,7 +198,7 @@ Definition revoked_validate (k : A.akind) : F.validate_reply :=
   match k with A.AGoogle => F.VStatus 400 false false | A.AOkta => F.VStatus 200 true false end.
 
 Definition is_revoked (i : idp) (g : option nat) : bool :=
-  match g with Some n => existsb (Nat.eqb n) (i_rev i) | None => false end.
+  match g with Some n => existsb (fun r => Nat.eqb n (fst r)) (i_rev i) | None => false end.
 
 Fixpoint dir_lookup (email : str) (t : list (str * list str)) : list str :=
   match t with [] => [] | (e, gs) :: t' => if str_eqb email e then gs else dir_lookup email t' end.
@@ -226,12 +229,6 @@ Definition eff_answers (i : idp) (k : A.akind) (g : option nat) (ga : option B.g
        A.an_revoke := A.an_revoke sc;
        A.an_groups := match ga with Some a => a | None => A.an_groups sc end;
        A.an_nonce := A.an_nonce sc; A.an_static := A.an_static sc |}.
-
-Fixpoint kind_of_slug (slug : str) (l : list (str * A.akind)) : A.akind :=
-  match l with
-  | [] => A.AGoogle
-  | (s, k) :: l' => if str_eqb slug s then k else kind_of_slug slug l'
-  end.
 
 (* ------------------------------------------------------------------------------------------ *)
 (* the proxy's back-channel requests (providers/sso.go) *)
@@ -374,11 +371,21 @@ Definition proxy_slug (sd : sysdep) (q : P.request) : str :=
   match proxy_up sd q with Some u => P.slug_of (sd_p sd) u | None => P.dp_slug (sd_p sd) end.
 Definition proxy_allowed (sd : sysdep) (q : P.request) : list str :=
   match proxy_up sd q with Some u => p_groups (Hostmux.u_policy (P.up_hm u)) | None => [] end.
-Definition proxy_kind (sd : sysdep) (q : P.request) : A.akind := kind_of_slug (proxy_slug sd q) (A.d_slugs (sd_a sd)).
+(* the provider type behind that slug: of the authenticator that handles <provider>/<slug>/validate *)
+Definition proxy_kind (sd : sysdep) (q : P.request) : A.akind :=
+  match A.find_slug (A.c_slash :: proxy_slug sd q ++ B.p_validate) (A.d_slugs (sd_a sd)) with
+  | Some (_, k, _) => k
+  | None => A.AGoogle
+  end.
+
+(* the code of a callback as the authenticator reads it off the proxy's redeem request (url.Values.Encode,
+   then ParseForm: the presented code itself when it consists of bytes) *)
+Definition redeemed_code (sd : sysdep) (q : P.request) : str :=
+  B.presented_code (A.inner (rq_redeem sd (proxy_slug sd q) (P.rq_host q) (P.cb_code q)) B.p_redeem).
 
 (* the IdP grant behind the credential this request makes the authenticator ask about *)
 Definition proxy_grant (sd : sysdep) (st : state) (q : P.request) : option nat :=
-  if is_callback q then match find_c st (P.cb_code q) with Some c => cr_grant c | None => None end
+  if is_callback q then match find_c st (redeemed_code sd q) with Some c => cr_grant c | None => None end
   else match presented_p sd st q with Some r => pr_grant r | None => None end.
 
 (* the authenticator model answering one back-channel request of this step *)
@@ -444,7 +451,7 @@ Definition new_prec (sd : sysdep) (st : state) (q : P.request) (oc : P.outcome) 
   | PC.CSaved s', Some u =>
       let v := name tag_p (length (st_p st)) in
       if is_callback q then
-        Some {| pr_val := v; pr_s := s'; pr_code := option_map cr_val (find_c st (P.cb_code q));
+        Some {| pr_val := v; pr_s := s'; pr_code := option_map cr_val (find_c st (redeemed_code sd q));
                 pr_grant := proxy_grant sd st q; pr_login := now; pr_host := P.rq_host q; pr_up := u; pr_at := now;
                 pr_conf := now; pr_real := true |}
       else
@@ -471,6 +478,10 @@ Definition new_mrec (sd : sysdep) (st : state) (q : P.request) (oc : P.outcome) 
 
 Definition unavailable (st : state) (lk : link) : bool :=
   match lk with LinkUp => i_down (st_idp st) | _ => true end.
+(* the proxy received a "provider unavailable" answer (429 / 503) on its back channel *)
+Definition unavail_ans (h : PC.http_ans) : bool := match h with PC.St c => PC.unavailable c | PC.Transport => false end.
+Definition saw_unavailable (a : PC.answers) : bool :=
+  unavail_ans (PC.a_refresh a) || unavail_ans (PC.a_validate a) || unavail_ans (PC.a_profile a).
 
 Definition proxy_step (sd : sysdep) (st : state) (q : P.request) (bk : RespHeaders.upstream) (lk : link)
     (sc : A.answers) : state * pout :=
@@ -483,16 +494,16 @@ Definition proxy_step (sd : sysdep) (st : state) (q : P.request) (bk : RespHeade
       st_a := st_a st; st_c := st_c st; st_v := st_v st;
       st_m := match nm with Some m => st_m st ++ [m] | None => st_m st end;
       st_idp := st_idp st;
-      st_out := if unavailable st lk then st_now st :: st_out st else st_out st |},
+      st_out := if unavailable st lk || saw_unavailable (P.an_auth (bc_answers lk b bk)) then st_now st :: st_out st else st_out st |},
    {| po_out := oc; po_ans := bc_answers lk b bk; po_redeem := bc_redeem b; po_refresh := bc_refresh b;
       po_validate := bc_validate b; po_profile := bc_profile b; po_idp := bc_idp_calls lk b (P.oc_calls oc);
       po_issued := option_map pr_val np; po_mac := option_map mr_val nm |}).
 
 (* ---- one browser request to the authenticator ---- *)
-Definition presented_a (sd : sysdep) (st : state) (q : A.request) : option (str * A.akind * option arec) :=
+Definition presented_a (sd : sysdep) (st : state) (q : A.request) : option (str * A.akind * str * option arec) :=
   match A.find_slug (A.q_path q) (A.d_slugs (sd_a sd)) with
-  | Some (slug, k, _) =>
-      Some (slug, k, match A.lookup slug (A.q_sess q) with Some v => find_a st v | None => None end)
+  | Some (slug, k, rest) =>
+      Some (slug, k, rest, match A.lookup slug (A.q_sess q) with Some v => find_a st v | None => None end)
   | None => None
   end.
 
@@ -518,11 +529,11 @@ Definition revoke_called (cs : list A.call) : bool :=
   existsb (fun c => match c with A.CRevoke _ => true | _ => false end) cs.
 
 Definition auth_slug (sd : sysdep) (st : state) (q : A.request) : str :=
-  match presented_a sd st q with Some (s, _, _) => s | None => [] end.
+  match presented_a sd st q with Some (s, _, _, _) => s | None => [] end.
 Definition auth_kind (sd : sysdep) (st : state) (q : A.request) : A.akind :=
-  match presented_a sd st q with Some (_, k, _) => k | None => A.AGoogle end.
+  match presented_a sd st q with Some (_, k, _, _) => k | None => A.AGoogle end.
 Definition auth_pres (sd : sysdep) (st : state) (q : A.request) : option arec :=
-  match presented_a sd st q with Some (_, _, r) => r | None => None end.
+  match presented_a sd st q with Some (_, _, _, r) => r | None => None end.
 Definition auth_grant (sd : sysdep) (st : state) (q : A.request) : option nat :=
   match auth_pres sd st q with Some r => ar_grant r | None => None end.
 Definition auth_answers (sd : sysdep) (st : state) (q : A.request) (sc : A.answers) : A.answers :=
@@ -530,14 +541,16 @@ Definition auth_answers (sd : sysdep) (st : state) (q : A.request) (sc : A.answe
 Definition auth_resp (sd : sysdep) (st : state) (q : A.request) (x : aux) (sc : A.answers) : A.response :=
   A.serve lower (sd_a sd) q (a_oracles sd st x) (auth_answers sd st q sc) (now_ns st).
 
-Definition is_login (r : A.response) : bool := match A.r_ran r with Some A.HCallback => true | _ => false end.
+(* the request addresses /<slug>/callback *)
+Definition is_login (sd : sysdep) (st : state) (q : A.request) : bool :=
+  match presented_a sd st q with Some (_, _, rest, _) => str_eqb rest A.p_callback | None => false end.
 
 (* a callback that sets a session is a login the IdP vouched for: a new grant *)
 Definition grant_after (sd : sysdep) (st : state) (q : A.request) (r : A.response) : option nat :=
-  if is_login r then match sets_of (A.r_sess_ops r) with [] => auth_grant sd st q | _ => Some (length (st_v st)) end
+  if is_login sd st q then match sets_of (A.r_sess_ops r) with [] => auth_grant sd st q | _ => Some (length (st_v st)) end
   else auth_grant sd st q.
 Definition new_vrecs (sd : sysdep) (st : state) (q : A.request) (sc : A.answers) (r : A.response) : list vrec :=
-  if is_login r then
+  if is_login sd st q then
     match sets_of (A.r_sess_ops r) with
     | s :: _ => [{| vr_email := F.s_email s; vr_slug := auth_slug sd st q; vr_kind := auth_kind sd st q;
                     vr_idp_code := B.form_get B.k_code (fst (B.compute_form (A.inner q A.p_callback)));
@@ -545,11 +558,18 @@ Definition new_vrecs (sd : sysdep) (st : state) (q : A.request) (sc : A.answers)
     | [] => []
     end
   else [].
+(* the proxy's MAC a /sign_in request presents, if its sig parameter is one *)
+Definition presented_mac (st : state) (q : A.request) : option mrec :=
+  match S.b64_decode (B.form_get A.k_sig (fst (B.compute_form (A.inner q A.p_sign_in)))) with
+  | Some b => find_m st b
+  | None => None
+  end.
 Definition new_crecs (sd : sysdep) (st : state) (q : A.request) (r : A.response) : list crec :=
   match A.r_loc r with
   | A.LCode src s =>
       [{| cr_val := name tag_c (length (st_c st)); cr_s := A.to_back s; cr_uri := src; cr_slug := auth_slug sd st q;
           cr_from := match auth_pres sd st q with Some p => Some (ar_val p) | None => None end;
+          cr_sig := presented_mac st q;
           cr_grant := auth_grant sd st q; cr_at := st_now st |}]
   | _ => []
   end.
@@ -560,7 +580,7 @@ Definition idp_after (sd : sysdep) (st : state) (q : A.request) (sc : A.answers)
   let i := st_idp st in
   if revoked_now sd st q sc r then
     match auth_grant sd st q with
-    | Some g => {| i_down := i_down i; i_rev := g :: i_rev i; i_groups := i_groups i |}
+    | Some g => {| i_down := i_down i; i_rev := (g, st_now st) :: i_rev i; i_groups := i_groups i |}
     | None => i
     end
   else i.
@@ -577,10 +597,10 @@ Definition auth_step (sd : sysdep) (st : state) (q : A.request) (x : aux) (sc : 
    {| ao_resp := r; ao_an := auth_answers sd st q sc; ao_cookies := cookie_names (length (st_a st)) sets;
       ao_code := match nc with c :: _ => Some (cr_val c) | [] => None end |}).
 
-Definition idp_step (i : idp) (c : idp_change) : idp :=
+Definition idp_step (now : Z) (i : idp) (c : idp_change) : idp :=
   match c with
   | IDown b => {| i_down := b; i_rev := i_rev i; i_groups := i_groups i |}
-  | IRevoke g => {| i_down := i_down i; i_rev := g :: i_rev i; i_groups := i_groups i |}
+  | IRevoke g => {| i_down := i_down i; i_rev := (g, now) :: i_rev i; i_groups := i_groups i |}
   | IGroups e gs => {| i_down := i_down i; i_rev := i_rev i; i_groups := (e, gs) :: i_groups i |}
   end.
 
@@ -594,7 +614,7 @@ Definition with_idp (st : state) (i : idp) : state :=
 Definition step (sd : sysdep) (st : state) (e : event) : state * out :=
   match e with
   | EvTick dt => (with_now st (st_now st + Z.max 0 dt), OTick)
-  | EvIdp c => (with_idp st (idp_step (st_idp st) c), OIdp)
+  | EvIdp c => (with_idp st (idp_step (st_now st) (st_idp st) c), OIdp)
   | EvProxy q bk lk sc => let '(st', o) := proxy_step sd st q bk lk sc in (st', OProxy o)
   | EvAuth q x sc => let '(st', o) := auth_step sd st q x sc in (st', OAuth o)
   end.
